@@ -416,6 +416,7 @@ PROPS = {
             e2e_part("TestVerif_C10main"),
             {"pkg": "internal/system", "files": ["system/zz_verif_policy_test.go"], "run": "TestVerif_C10real", "old_timers": True, "shards": {"quick": 1, "thorough": 4},
              "patches": DIAL_PATCHES},
+            {"pkg": "internal/corerad", "run": "TestVerif_C10wiring", "files": ["corerad/zz_verif_C10wire_test.go"], "shards": {"quick": 1, "thorough": 1}},
             {"pkg": "internal/corerad", "run": "TestVerif_C10live", "shards": {"quick": 4, "thorough": 8},
              "files": ["corerad/zz_verif_C12_test.go", "corerad/zz_verif_sim_test.go", "corerad/zz_verif_adv_test.go", "corerad/zz_verif_mon_test.go",
                        "corerad/zz_verif_C06_test.go", "corerad/zz_verif_C07_test.go", "corerad/zz_verif_C09_test.go", "corerad/zz_verif_wire_test.go", "corerad/zz_verif_C10_test.go"]},
@@ -719,3 +720,5 @@ PROPS["C10"]["rule"] += " After a recoverable fault the re-dialled connection mu
 PROPS["C04"]["rule"] += " The own RA handed to the inconsistency hook must be the one of that instant (forwarding as it is when the other router's RA is handled), not merely one of the two possible RAs."
 
 PROPS["C18"]["rule"] += " Wire-image part: a mutated image that still parses as an RA is judged on every monitor series (flags, default-route expiry, per-prefix flags and expiries at a fixed receipt time) against the same model as the message sequences; options whose prefix has host bits set or an impossible length are left out."
+
+PROPS["C10"]["rule"] += " Wiring part: for every mode vector of up to 5 interfaces (and 200 / 20 000 random ones of up to 130) every advertiser and monitor BuildTasks returns holds a link-state subscription of its own."
